@@ -480,11 +480,16 @@ theorem kHeaders_facts : isCacheKey kHeaders = true ∧ kHeaders ≠ kPost ∧
   refine ⟨by decide, by decide, ?_⟩
   intro q hq; cases q <;> first | (exact absurd rfl hq) | decide
 
-/-- the header view: in scope when the request holds no view, or a view of its own environ -/
-def ownView (s : RS) : Prop := s.env.get? kHeaders = none ∨ s.env.get? kHeaders = some (.view s.self)
+theorem ownView_iff (e : Env) (i : Nat) :
+    ownView e i = true ↔ (e.get? kHeaders = none ∨ e.get? kHeaders = some (.view i)) := by
+  unfold ownView
+  cases e.get? kHeaders with
+  | none => simp
+  | some v => simp
 
-theorem sim_headers (s : RS) (hI : Inv cfg L s.env) (hv : ownView s) :
+theorem sim_headers (s : RS) (hI : Inv cfg L s.env) (hv : ownView s.env s.self = true) :
     Sim cfg L rdHeaders (specRead cfg L .headers) s := by
+  rw [ownView_iff] at hv
   obtain ⟨c1, c2, c3⟩ := kHeaders_facts cfg L
   have hsp : specRead cfg L .headers = fun s => (.ok (.view s.self), s) := rfl
   rw [hsp]
@@ -495,7 +500,7 @@ theorem sim_headers (s : RS) (hI : Inv cfg L s.env) (hv : ownView s) :
     all_goals first | rfl | exact hI
 
 /-- when is a read in scope: always, except `headers` on a request that carries another request's view -/
-def safeRead (p : Prop') (s : RS) : Prop := p = .headers → ownView s
+def safeRead (p : Prop') (s : RS) : Prop := p = .headers → ownView s.env s.self = true
 
 /-- **every getter simulates the reference** -/
 theorem sim_read (p : Prop') (s : RS) (hI : Inv cfg L s.env) (hs : safeRead p s) :
